@@ -14,7 +14,7 @@ ID = 'C04'
 IMPORTS = ['Unify.Unify', 'Engine.World', 'Engine.RunWorld']
 THEOREMS = ['C04_init_world_inv', 'C04_step_local', 'C04_step_noninterference', 'C04_interleave_alone',
             'C04_interleave_alone_init', 'C04_interleaved_eq_alone', 'C04_merges_indistinguishable',
-            'C04_same_engine_slots', 'C04_slots_alone', 'C04_same_engine_disjoint', 'C04_unify_frame']
+            'C04_same_engine_slots', 'C04_slots_alone', 'C04_slots_none', 'C04_slots_start', 'C04_same_engine_disjoint', 'C04_unify_frame']
 RULE = ('2-3 engines, histories of 6-24 operations each over {atom, assert_fact/assertz/asserta (3 API variants), retract/'
         'retractall (4 API variants), register_function (fixed/variadic), load_script_from_string of compiled Prolog '
         '(overwrite and chained; the same text in several engines, and different texts defining the same names), clear, '
@@ -364,6 +364,60 @@ def run_alone_fresh(case):
         out.append(json.loads(r.stdout)['obs'])
     return out
 
+SLOT_OPS = ('start', 'next', 'close', 'drain')
+
+def _vars_of(t, acc):
+    if t[0] == 'v':
+        acc.add(t[1])
+    elif t[0] == 'f':
+        for a in t[2]:
+            _vars_of(a, acc)
+    return acc
+
+def slots_independent(hist):
+    """the slots of this history in which queries run, if the history qualifies for the same-engine oracle: at least two
+    slots, the queries of different slots have no variable in common, and no assert / retract mentions a query variable
+    (then the only way one query could influence another is the interference the property excludes)"""
+    per = {}
+    for op in hist:
+        if op[0] == 'start':
+            acc = per.setdefault(op[1], set())
+            for a in op[3]:
+                _vars_of(a, acc)
+    if len(per) < 2:
+        return []
+    qs = sorted(per)
+    for i in range(len(qs)):
+        for j in range(i + 1, len(qs)):
+            if per[qs[i]] & per[qs[j]]:
+                return []
+    allq = set().union(*per.values())
+    for op in hist:
+        args = op[3] if op[0] == 'assert' else op[2] if op[0] == 'retract' else []
+        for a in args:
+            if _vars_of(a, set()) & allq:
+                return []
+    return qs
+
+def run_slots_alone(case):
+    """for every qualifying engine and each of its slots q: the same history in which the generators of the other slots
+    are never created or advanced; returns [engine, slot, [(index in the history, observation)]]"""
+    out = []
+    for e in range(case['neng']):
+        hist = case['hist'][e]
+        for q in slots_independent(hist):
+            d = EngineDriver(case, e)
+            seen = []
+            for k, op in enumerate(hist):
+                if op[0] == 'peek' or (op[0] in SLOT_OPS and op[1] != q):
+                    continue
+                d.step(op)
+                if op[0] in SLOT_OPS:
+                    seen.append([k, d.obs[-1]])
+            d.finish()
+            out.append([e, q, seen])
+    return out
+
 def run_interleaved(case):
     ds = [EngineDriver(case, e) for e in range(case['neng'])]
     for e, op in schedule_ops(case):
@@ -410,7 +464,8 @@ def impl(case):
     inter, shared, unbound = run_interleaved(case)
     thr, errs = run_threads(case)
     b2b = run_back_to_back(case)
-    return {'alone': alone, 'back_to_back': b2b, 'interleaved': inter, 'threads': thr, 'thread_errors': errs,
+    solo = run_slots_alone(case)
+    return {'slots_alone': solo, 'alone': alone, 'back_to_back': b2b, 'interleaved': inter, 'threads': thr, 'thread_errors': errs,
             'shared_atom_objects': shared, 'all_unbound_at_end': unbound}
 
 # ------------------------------------------------------------------ comparison
@@ -508,6 +563,12 @@ def oracle(case, io):
         return 'thread run raised: %s' % io['thread_errors'][:2]
     if a != c:
         return 'an engine observes something else when the engines run on threads than when it runs alone in a fresh interpreter: ' + _first_diff(c, a)
+    for e, q, seen in io.get('slots_alone', []):
+        for k, o in seen:
+            x, y = canon_impl([[o]])[0][0], b[e][k]
+            if x != y:
+                return ('a query of engine %d sees something else when other queries of the same engine (over other variables) are '
+                        'suspended than when it is the only one: slot %d, operation %d: %r vs %r' % (e, q, k, y, x))
     if io['shared_atom_objects']:
         return 'two engine instances returned the same Atom object'
     if not io['all_unbound_at_end']:
@@ -577,13 +638,14 @@ def gen_history(rng, case, eid, nops, base_facts):
     ops = []
     nextvar = [0]
     live = {}            # slot -> variables of the query in it
+    mix = rng.random() < 0.5     # asserts may mention variables of suspended queries (else: same-engine oracle applies)
     def fresh(n):
         r = list(range(nextvar[0], nextvar[0] + n))
         nextvar[0] += n
         return r
     def fact_args(ar, allow_live=True):
         vs = fresh(rng.choice([0, 0, 1, 2]))
-        if allow_live and live and rng.random() < 0.3:
+        if mix and allow_live and live and rng.random() < 0.3:
             vs = vs + rng.choice(list(live.values()))
         return [rand_open(rng, vs, 2, 0.35) for _ in range(ar)]
     def query_goal():
@@ -703,6 +765,25 @@ def builtin_corpus():
           ['next', 0], ['next', 1]]
     h1 = [['atom', 'a'], ['clear'], ['atom', 'a'], ['assert', False, 'p', [a('b')], 1], ['start', 0, 'p', [v(0)]], ['drain', 0]]
     L.append({'neng': 2, 'scripts': [], 'hist': [h0, h1], 'sched': [0, 0, 0, 1, 0, 1, 0, 1, 0, 1, 0, 1, 0, 1, 0, 0]})
+    # three engines: the same name registered with different rows, the same script chained twice, clear of one engine while
+    # the generators of the others are suspended; variables are looked at between the steps
+    script = [['t', 1, [[[v(0)], [['w', [v(0), v(1)]]]], [[a('z')], []]]]]
+    def hist(x, y, clear):
+        h = [['register', 'w', 2, [[a(x), a(y)], [a(y), a(x)]]], ['load', False, 0], ['load', False, 0], ['atom', x],
+             ['start', 0, 't', [v(0)]], ['next', 0], ['peek', [v(0), v(5)]], ['start', 1, 'w', [v(1), v(2)]], ['next', 1],
+             ['peek', [f('f', v(0), v(1), v(2))]], ['next', 0], ['next', 1], ['next', 0]]
+        if clear:
+            h += [['clear'], ['atom', x], ['next', 0], ['start', 2, 't', [v(3)]], ['drain', 2]]
+        else:
+            h += [['next', 0], ['next', 0], ['atom', x], ['close', 1, 1], ['peek', [v(1), v(2)]]]
+        return h
+    hs = [hist('a', 'b', False), hist('c', 'd', True), hist('a', 'd', False)]
+    sched = []
+    for k in range(max(len(h) for h in hs)):
+        for e in (2, 0, 1):
+            if k < len(hs[e]):
+                sched.append(e)
+    L.append({'neng': 3, 'scripts': [script], 'hist': hs, 'sched': sched})
     return L
 
 # ------------------------------------------------------------------ reporting
@@ -783,8 +864,11 @@ def shrink(case):
 
 def distribution(cases, obs):
     d = {'engines': {}, 'ops': {}, 'history_len': {}, 'max_suspended': {}, 'answers_per_next': {'ans': 0, 'done': 0},
-         'raised': 0, 'scripts': {}}
+         'raised': 0, 'scripts': {}, 'same_engine_oracle_runs': 0, 'same_engine_oracle_steps': 0}
     for c, o in zip(cases, obs):
+        if isinstance(o, dict):
+            d['same_engine_oracle_runs'] += len(o.get('slots_alone', []))
+            d['same_engine_oracle_steps'] += sum(len(x[2]) for x in o.get('slots_alone', []))
         d['engines'][str(c['neng'])] = d['engines'].get(str(c['neng']), 0) + 1
         d['scripts'][str(len(c['scripts']))] = d['scripts'].get(str(len(c['scripts'])), 0) + 1
         for h in c['hist']:
